@@ -41,6 +41,7 @@ Allowed(e) ==
     [] e.op = "stat"     -> {StatReply(SeqToSet(e.bs))}
     [] e.op = "enum"     -> {EnumReply(e.after, e.limit)}
     [] e.op = "remove"   -> {RemoveReply(SeqToSet(e.bs))}
+    [] e.op = "stream"   -> {StreamReply}
 
 Same(r, e) == r.res = e.res /\ r.size = e.size /\ r.list = e.list
 
@@ -52,6 +53,7 @@ Act(e) ==
     [] e.op = "stat"     -> Stat(SeqToSet(e.bs))
     [] e.op = "enum"     -> Enumerate(e.after, e.limit)
     [] e.op = "remove"   -> RemoveBlobs(SeqToSet(e.bs))
+    [] e.op = "stream"   -> Stream
 
 TOp == /\ l <= Len(Trace) /\ Ev.ev = "op" /\ ~dead
        /\ l' = l + 1
